@@ -64,6 +64,9 @@ class Book(ss.Analyzer):
         au = np.asarray(ppl.auids)
         if len(np.unique(au)) != len(au): self.problems.append((ti, 'duplicate active uids'))
         if len(au) and au.max() >= n: self.problems.append((ti, 'active uid outside the id space'))
+        lost = np.setdiff1d(np.flatnonzero(np.asarray(ppl.alive.raw[:n])), au)
+        if len(lost):
+            self.problems.append((ti, f'agent {int(lost[0])} is alive (never died) but is no longer among the active agents ({len(lost)} such agents)'))
         overdue = au[(ppl.alive.raw[au]) & (ppl.ti_dead.raw[au] < ti)]
         if len(overdue):
             self.problems.append((ti, f'death requested at step {int(ppl.ti_dead.raw[overdue[0]])} for agent {int(overdue[0])} has still not been carried out after the death-resolution phase of step {int(ti)}'))
